@@ -25,8 +25,19 @@ fn deviance_def(f: &str, y: &[f64], mu: &[f64]) -> f64 {
 struct Fitted { coef: Vec<f64>, pred: Vec<f64>, dev: f64, disp: f64, se: Vec<f64>, cov: Vec<f64> }
 
 fn fit(f: &str, x: &[f64], y: &[f64], w: Option<&[f64]>, o: Option<&[f64]>, alpha: f64, tol: f64, maxit: usize) -> Option<Result<Fitted, String>> {
+    fit_h(f, x, y, w, o, alpha, tol, maxit, false)
+}
+/// `refit`: the object has already been fitted (successfully, on the responses in reverse order with a loose
+/// tolerance and another penalty) before it is configured for and fitted to the problem at hand
+fn fit_h(f: &str, x: &[f64], y: &[f64], w: Option<&[f64]>, o: Option<&[f64]>, alpha: f64, tol: f64, maxit: usize, refit: bool) -> Option<Result<Fitted, String>> {
     guard(|| {
         let mut g = GLM::new(fam_of(f));
+        if refit {
+            let yr: Vec<f64> = y.iter().rev().cloned().collect();
+            g.set_penalty(0.5); g.set_tolerance(1e-3);
+            let _ = g.fit(x, &yr, 100);
+            g.set_penalty(0.0);
+        }
         if alpha > 0.0 { g.set_penalty(alpha); }
         if let Some(w) = w { g.set_weights(w); }
         if let Some(o) = o { g.set_offset(o); }
@@ -129,7 +140,11 @@ pub fn record(seed: u64, nev: usize, out: &str) {
         let mut x = vec![0.0; n * p];
         for i in 0..n { x[i * p] = 1.0; let t0 = -1.0 + 2.0 * i as f64 / n as f64;
             for j in 1..p { x[i * p + j] = match kind { "standardised" => gauss(&mut rng) * 0.8, "polynomial" => t0.powi(j as i32), _ => if (i + j) % (j + 2) == 0 { 1.0 } else { 0.0 } }; } }
-        let beta: Vec<f64> = (0..p).map(|_| rng.range(-15, 15) as f64 / 10.0).collect();
+        let mut beta: Vec<f64> = (0..p).map(|_| rng.range(-15, 15) as f64 / 10.0).collect();
+        // large responses (mean of order 50..150): the log-link iteration starts far from the solution
+        let large = (e / 18) % 3 == 2;
+        if large { beta[0] = match fam { "Gaussian" => 80.0, "Bernoulli" => beta[0], _ => 4.0 + rng.below(8) as f64 / 10.0 }; for j in 1..p { beta[j] *= 0.25; } }
+        let refit = (e / 6) % 2 == 1;
         let use_w = rng.below(2) == 0; let use_o = rng.below(3) == 0;
         let alpha = [0.0, 0.0, 0.1, 1.0, 10.0][rng.below(5) as usize];
         let w: Vec<f64> = (0..n).map(|_| if use_w { 0.5 + rng.below(4) as f64 * 0.5 } else { 1.0 }).collect();
@@ -138,12 +153,12 @@ pub fn record(seed: u64, nev: usize, out: &str) {
         let y: Vec<f64> = eta.iter().map(|h| match fam {
             "Gaussian" => h + gauss(&mut rng),
             "Bernoulli" => if unif(&mut rng) < 1.0 / (1.0 + (-h).exp()) { 1.0 } else { 0.0 },
-            "Poisson" | "QuasiPoisson" => { let l = (-h.exp()).exp(); let mut k = 0.0; let mut pr = unif(&mut rng); while pr > l && k < 500.0 { k += 1.0; pr *= unif(&mut rng); } k }
+            "Poisson" | "QuasiPoisson" => { let mu = h.exp(); if mu > 30.0 { (mu + mu.sqrt() * gauss(&mut rng)).round().max(0.0) } else { let l = (-mu).exp(); let mut k = 0.0; let mut pr = unif(&mut rng); while pr > l && k < 500.0 { k += 1.0; pr *= unif(&mut rng); } k } }
             _ => { let m = h.exp(); let shape = if fam == "Gamma" { 3.0 } else { 1.0 }; (0..shape as usize).map(|_| -unif(&mut rng).ln()).sum::<f64>() * m / shape }
         }).collect();
         let tol = [1e-8, 1e-11, 1e-14][rng.below(3) as usize];
-        let r = fit(fam, &x, &y, if use_w { Some(&w[..]) } else { None }, if use_o { Some(&o[..]) } else { None }, alpha, tol, 200);
-        let base = json!({"family": fam, "design": kind, "n": n, "p": p, "weights": use_w, "offset": use_o, "alpha_class": if alpha == 0.0 { 0 } else { 1 }, "tol_log10": tol.log10().round() as i64});
+        let r = fit_h(fam, &x, &y, if use_w { Some(&w[..]) } else { None }, if use_o { Some(&o[..]) } else { None }, alpha, tol, 200, refit);
+        let base = json!({"family": fam, "design": kind, "scale": if large { "large-mean" } else { "unit" }, "history": if refit { "refit" } else { "fresh" }, "n": n, "p": p, "weights": use_w, "offset": use_o, "alpha_class": if alpha == 0.0 { 0 } else { 1 }, "tol_log10": tol.log10().round() as i64});
         let mut ev = base.as_object().unwrap().clone();
         match r {
             Some(Ok(ft)) => {
@@ -157,13 +172,17 @@ pub fn record(seed: u64, nev: usize, out: &str) {
                 }
                 for j in 1..p { score[j] -= alpha * ft.coef[j]; scale[j] += (alpha * ft.coef[j]).abs(); }
                 let rel = (0..p).map(|j| score[j].abs() / scale[j].max(1e-300)).fold(0.0, f64::max);
+                // the same score against the scale of the data alone: sum_i w_i |x_ij| max(1, |y_i|)
+                let absrel = (0..p).map(|j| { let sc: f64 = (0..n).map(|i| w[i] * x[i * p + j].abs() * y[i].abs().max(1.0)).sum(); score[j].abs() / sc.max(1e-300) }).fold(0.0, f64::max);
+                ev.insert("score_abs_log2".into(), json!(if absrel <= 0.0 { -1074 } else { absrel.log2().ceil() as i64 }));
+                ev.insert("coef_max".into(), json!(ft.coef.iter().fold(0.0f64, |m, c| m.max(c.abs()))));
                 let predok = { let pr = &ft.pred; (0..n).all(|i| { let h = (0..p).map(|j| x[i * p + j] * ft.coef[j]).sum::<f64>() + o[i];
                     let m = match fam { "Gaussian" => h, "Bernoulli" => 1.0 / (1.0 + (-h).exp()), _ => h.exp() }; (pr[i] - m).abs() <= 1e-12 * m.abs().max(1.0) }) };
                 ev.insert("out".into(), json!("ok")); ev.insert("score_rel_log2".into(), json!(if rel <= 0.0 { -1074 } else { rel.log2().ceil() as i64 }));
                 ev.insert("finite".into(), json!(ft.coef.iter().chain(ft.se.iter()).all(|v| v.is_finite()))); ev.insert("predict_is_inverse_link".into(), json!(predok));
             }
-            Some(Err(_)) => { ev.insert("out".into(), json!("err")); ev.insert("score_rel_log2".into(), json!(0)); ev.insert("finite".into(), json!(true)); ev.insert("predict_is_inverse_link".into(), json!(true)); }
-            None => { ev.insert("out".into(), json!("panic")); ev.insert("score_rel_log2".into(), json!(0)); ev.insert("finite".into(), json!(false)); ev.insert("predict_is_inverse_link".into(), json!(false)); }
+            Some(Err(_)) => { ev.insert("out".into(), json!("err")); ev.insert("score_rel_log2".into(), json!(0)); ev.insert("score_abs_log2".into(), json!(0)); ev.insert("finite".into(), json!(true)); ev.insert("predict_is_inverse_link".into(), json!(true)); }
+            None => { ev.insert("out".into(), json!("panic")); ev.insert("score_rel_log2".into(), json!(0)); ev.insert("score_abs_log2".into(), json!(0)); ev.insert("finite".into(), json!(false)); ev.insert("predict_is_inverse_link".into(), json!(false)); }
         }
         t.emit(Value::Object(ev));
     }
